@@ -232,6 +232,16 @@ def cases(tier, seed):
                     if dt:
                         vals['$DATE'] = dt
                     yield dict(kind='formats', present=pres, values=vals, timech=tc, creator=None)
+    # (B2) every fractional-second value of both standard formats: tt = 0..59 (1/60 s, one and two digits), cc = 00..99 and c = 0..9
+    fr = ['10:05:07:%d' % t for t in range(60)] + ['10:05:07:%02d' % t for t in range(10)] + \
+         ['10:05:07.%02d' % t for t in range(100)] + ['10:05:07.%d' % t for t in range(10)] + ['10:05:07.123456', '10:05:07:59.5', '10:05:07:60']
+    for f in fr:
+        for dt in (None, '03-Oct-2023'):
+            pres = ['$BTIM', '$ETIM'] + (['$DATE'] if dt else [])
+            vals = {'$BTIM': f, '$ETIM': '10:05:09'}
+            if dt:
+                vals['$DATE'] = dt
+            yield dict(kind='formats', present=pres, values=vals, timech=None, creator=None)
     # (C) ill-formed values: one keyword over the lattice of the others; two keywords at a time on selected lattice points
     menus = {'$TIMESTEP': BAD_NUM, 'TIMETICKS': BAD_NUM, '$BTIM': BAD_TIME, '$ETIM': BAD_TIME, '$DATE': BAD_DATE,
              '$P2V': BAD_NUM, '$P2G': BAD_NUM, 'BD$WORD14': BAD_NUM, 'CytekP02G': BAD_NUM}
